@@ -369,9 +369,13 @@ func genExtract(r *rand.Rand) logqIn {
 			{{T: "lit", S: B("x")}, {T: "cap", Name: B("a")}, {T: "lit", S: B("y")}},
 			{{T: "cap", Name: B("a")}, {T: "lit", S: B("=")}, {T: "cap", Name: B("b")}, {T: "lit", S: B(";")}},
 			{{T: "lit", S: B("[")}, {T: "cap", Name: B("lvl")}, {T: "lit", S: B("] ")}, {T: "cap", Name: B("rest")}},
+			// angle brackets that are literal text, directly around captures
+			{{T: "lit", S: B("[")}, {T: "cap", Name: B("a")}, {T: "lit", S: B("] <")}, {T: "cap", Name: B("lvl")}, {T: "lit", S: B("> ")}, {T: "cap", Name: B("rest")}},
+			{{T: "lit", S: B("x <")}, {T: "cap", Name: B("a")}, {T: "lit", S: B(">")}},
+			{{T: "cap", Name: B("a")}, {T: "lit", S: B(" < ")}, {T: "cap", Name: B("b")}},
 		}
 		for i := 0; i < n; i++ {
-			line := pick(r, []string{"a b", "a b c", "xay", "xy", "k=v;", "k=v", "[err] boom", "[err]boom", "", " ", "x", "a  b", "[e] ", "=;"})
+			line := pick(r, []string{"a b", "a b c", "xay", "xy", "k=v;", "k=v", "[err] boom", "[err]boom", "", " ", "x", "a  b", "[e] ", "=;", "[1] <err> boom", "[1] <<x>> y", "x <v>", "x <>", "1 < 2", "a <b"})
 			in.Recs = append(in.Recs, MemRec{ID: i + 1, TS: []int{1700000001 + i, 0}, Line: B(line), Attrs: [][2][]int{}, Doc: [][2][]int{}})
 		}
 		in.Stages = []stageIn{{T: "pattern", Parts: pats[r.Intn(len(pats))]}}
